@@ -599,7 +599,10 @@ class C03Engine(Engine):
                     # low-precision data are integrated in double precision (D26): no allowance for float16 / float32
                     # integer factors are resized with exact numpy block operations (D21, D22, D33): no allowance for
                     # OpenCV's single-precision area kernel either
-                    tol = 1e-11 * scale
+                    # ... but any summation order is a valid implementation of 'the sum': allow the double-precision
+                    # accumulation bound n*eps for n summed voxels (matters for the million-voxel cases only, §8.19)
+                    nvox = max(int(np.prod([m_ * b_ for m_, b_ in zip(m, spec["base"])])) for m in mults)
+                    tol = max(1e-11, 8.0 * nvox * np.finfo(float).eps) * scale
                     if op["op"] == "normalize":
                         # the rescaled image keeps the dtype of the input image: float32 pixels carry 6e-8 relative error
                         tol = max(tol, (1e-5 if op.get("dtype") == "float32" else 1e-9) * scale)
